@@ -211,6 +211,7 @@ def shard_find_critical(seed, n, tie=False):
         "C19", case_strategy(tie), check_case, seed=seed, max_examples=n, result=res,
         nontrivial=lambda c: c.pop("_nt", False),
         label=lambda c: ["%s/%s" % ("tie" if c.get("tie") else "generic", c["kind"]), "parity/nR%d,nZ%d" % (c["nR"] % 2, c["nZ"] % 2)],
+        case_timeout=120.0,
     )
     return res
 
@@ -299,7 +300,7 @@ def shard_tokamak(seed, n):
             return ["tokamak/raised:" + c.pop("_raised")]
         return ["tokamak/expect-%s" % ("double" if c.pop("_two", False) else "single")]
 
-    hyp_search("C19", tokamak_strategy(), check_tokamak, seed=seed, max_examples=n, result=res, label=lab, shrink=False)
+    hyp_search("C19", tokamak_strategy(), check_tokamak, seed=seed, max_examples=n, result=res, label=lab, shrink=False, case_timeout=240.0)
     return res
 
 
@@ -379,17 +380,9 @@ def run(run):
     jobs += [("shard_find_critical", dict(seed=run.seed * 100 + 50 + i, n=25 if q else 300, tie=True)) for i in range(2)]
     jobs += [("shard_tokamak", dict(seed=run.seed * 100 + i, n=5 if q else 40)) for i in range(4)]
     jobs += [("shard_saddle", dict(seed=run.seed, n=100 if q else 2000))]
-    from ..unitlab import HarnessError, _shard_entry
-    import concurrent.futures
-    import multiprocessing
+    from ..unitlab import merge_job_outputs, run_jobs
 
-    ctx = multiprocessing.get_context("fork")
-    with concurrent.futures.ProcessPoolExecutor(15, mp_context=ctx) as ex:
-        outs = list(ex.map(_shard_entry, [("vf.props.c19", fn, kw) for fn, kw in jobs]))
-    for status, payload in outs:
-        if status != "ok":
-            raise HarnessError(payload)
-        run.merge_shard(payload)
+    merge_job_outputs(run, run_jobs([("vf.props.c19", fn, kw) for fn, kw in jobs], processes=15))
     run.rule = RULE
     run.assumptions = [
         "reference critical points: 28x28 multi-start Newton on the analytic function; only points with "
